@@ -9,7 +9,6 @@ Section Accepted.
   Variable d : structdesc.
   Hypothesis Hc : check_struct d = true.
   Hypothesis Hnd : NoDup (map sf_name d).
-  Hypothesis Hidtag : forall f, In f d -> is_id_field f = true -> is_res_tag (sf_api f) = false.
   Variable vals : list value.
   Hypothesis Hl : length vals = length d.
   Hypothesis Hty : Forall2 slot_typed d vals.
@@ -18,21 +17,25 @@ Section Accepted.
   Variable e : stdenv.
 
   Lemma marshal_attrs_ok fields l :
-    (forall n a, In (n, a) l -> decl d n /\ aname a = n) ->
+    (forall n a, In (n, a) l -> (decl d n \/ n = "id") /\ aname a = n) ->
     forall acc, exists out, marshal_attrs e (RWrap w) fields l acc = Ok out.
   Proof.
     induction l as [|[n a] l IH]; intros H acc; cbn [marshal_attrs]; [eauto|].
     destruct (mem_str (aname a) fields); [|apply IH; intros n' a' Hin; apply H; right; exact Hin].
-    destruct (H n a (or_introl eq_refl)) as [Hd Hn]. rewrite Hn. cbn [res_get].
-    destruct (get_decl d vals typ attrs rels n Hc Hnd Hl Hd) as [g [v0 [_ [_ [_ [_ Hget]]]]]].
-    fold w in Hget. rewrite Hget. cbn [bind]. apply IH. intros n' a' Hin. apply H. right. exact Hin.
+    destruct (H n a (or_introl eq_refl)) as [[Hd| ->] Hn]; rewrite Hn; cbn [res_get].
+    - destruct (get_decl d vals typ attrs rels n Hc Hnd Hl Hd) as [g [v0 [_ [_ [_ [_ Hget]]]]]].
+      fold w in Hget. rewrite Hget. cbn [bind]. apply IH. intros n' a' Hin. apply H. right. exact Hin.
+    - unfold wrapper_get. cbn [String.eqb Ascii.eqb Bool.eqb bind]. apply IH. intros n' a' Hin. apply H. right. exact Hin.
   Qed.
 
   Lemma marshal_rel_ok typ0 prepath tn id want n x :
-    (exists f, In f d /\ tagged f = true /\ sf_json f = n /\ rel_of_field typ0 f = Some x /\ from_name x = n) ->
+    from_name x = n ->
+    ((exists f, In f d /\ tagged f = true /\ sf_json f = n /\ rel_of_field typ0 f = Some x) \/
+     (n = "id" /\ to_one x = true)) ->
     exists j, marshal_rel (RWrap w) prepath tn id want x = Ok j.
   Proof.
-    intros [f [Hf [Htf [Hjf [Hr Hfn]]]]]. unfold marshal_rel. destruct (negb want); [eauto|].
+    intros Hfn [[f [Hf [Htf [Hjf Hr]]]]|[-> H1]]; unfold marshal_rel; destruct (negb want); eauto.
+    2:{ rewrite H1, Hfn. unfold get_str. cbn [res_get]. unfold wrapper_get. cbn [String.eqb Ascii.eqb Bool.eqb bind]. eauto. }
     assert (Hd : decl d n) by (exists f; auto).
     destruct (get_decl d vals typ attrs rels n Hc Hnd Hl Hd) as [g [v0 [Hs [Hg [Ht [Hj Hget]]]]]].
     fold w in Hget.
@@ -47,25 +50,26 @@ Section Accepted.
   Qed.
 
   Lemma marshal_rels_ok typ0 prepath tn id fields want l :
-    (forall n x, In (n, x) l -> exists f, In f d /\ tagged f = true /\ sf_json f = n /\
-                                         rel_of_field typ0 f = Some x /\ from_name x = n) ->
+    (forall n x, In (n, x) l -> from_name x = n /\
+       ((exists f, In f d /\ tagged f = true /\ sf_json f = n /\ rel_of_field typ0 f = Some x) \/
+        (n = "id" /\ to_one x = true))) ->
     forall acc, exists out, marshal_rels (RWrap w) prepath tn id fields want l acc = Ok out.
   Proof.
     induction l as [|[n x] l IH]; intros H acc; cbn [marshal_rels]; [eauto|].
     destruct (mem_str (from_name x) fields); [|apply IH; intros n' x' Hin; apply H; right; exact Hin].
-    destruct (marshal_rel_ok typ0 prepath tn id (mem_str (from_name x) want) n x (H n x (or_introl eq_refl))) as [j Ej].
+    destruct (H n x (or_introl eq_refl)) as [Hfn Hcase].
+    destruct (marshal_rel_ok typ0 prepath tn id (mem_str (from_name x) want) n x Hfn Hcase) as [j Ej].
     rewrite Ej. cbn [bind]. apply IH. intros n' x' Hin. apply H. right. exact Hin.
   Qed.
 End Accepted.
 
 Theorem marshal_checked_ok e d vals w prepath fields reldata :
   check_struct d = true -> NoDup (map sf_name d) ->
-  (forall f, In f d -> is_id_field f = true -> is_res_tag (sf_api f) = false) ->
   length vals = length d -> Forall2 slot_typed d vals ->
   wrap d vals = Ok w ->
   exists j, marshal_resource e (RWrap w) prepath fields reldata = Ok j.
 Proof.
-  intros Hc Hnd Hid Hl Hty Hw.
+  intros Hc Hnd Hl Hty Hw.
   destruct (accept_both d vals Hc) as [rels [_ Hw']]. rewrite Hw in Hw'. injection Hw' as ->.
   assert (Hrels : build_rels (struct_type_name d) d = Some rels).
   { unfold wrap in Hw. rewrite Hc in Hw. cbn [negb] in Hw.
@@ -75,12 +79,12 @@ Proof.
                 = Ok (wrapper_get_id (mkWrapper d vals (struct_type_name d) (build_attrs d) rels))) by reflexivity.
   rewrite Eid. cbn [bind res_attrs res_rels res_type_name w_attrs w_rels w_typ].
   destruct (marshal_attrs_ok d Hc Hnd vals Hl (struct_type_name d) (build_attrs d) rels e fields (build_attrs d)
-              (fun n a Hin => attr_decl d Hid n a Hin) []) as [oa Ea].
+              (fun n a Hin => attr_decl d Hc Hnd n a Hin) []) as [oa Ea].
   rewrite Ea. cbn [bind].
   match goal with |- context [marshal_rels ?r ?pp ?tn ?id ?fs ?want ?l ?acc] =>
     destruct (marshal_rels_ok d Hc Hnd vals Hl Hty (struct_type_name d) (build_attrs d) rels (struct_type_name d)
                 pp tn id fs want l
-                (fun n x Hin => rel_decl d Hid (struct_type_name d) rels n x Hrels Hin) acc) as [orl Er]
+                (fun n x Hin => rel_decl d Hc Hnd (struct_type_name d) rels n x Hrels Hin) acc) as [orl Er]
   end.
   rewrite Er. cbn [bind]. eauto.
 Qed.
